@@ -36,9 +36,13 @@ def groups(n, seed):
         pick = [variants[(i + k) % len(variants)] for k in range(3)]
         if i % 4 == 2:
             pick = [variants[2], variants[4], variants[0]]     # the two report_rcond variants first
+        if i % 8 == 3:
+            # the Hessian is undefined at the start point (everything else is fine there): whatever the solver does about
+            # it, it must do so at every log level
+            runs[0]["fault"] = ("atstart", "lag_hess", "nan")
         for rn, v in zip(("B", "C", "D"), pick):
             runs.append({"prob": ps, "params": v["params"], "run": rn, "twin": "C09", "loglevel": v["loglevel"],
-                         "observers": v["observers"], "clock": v.get("clock")})
+                         "observers": v["observers"], "clock": v.get("clock"), "fault": runs[0].get("fault")})
         gs.append({"tag": "C09", "runs": runs})
     return gs
 
